@@ -1,0 +1,67 @@
+//go:build verif
+
+// Contracts for package sumdb (client), read by /verif/engine (govc).  Comment-only.
+
+package sumdb
+
+//@ # The outside world: what it returns is untrusted; what may be handed to it is stated at the call sites.
+//@ iface ClientOps.ReadRemote(ops ClientOps, path string) (data []byte, err error)
+//@   allocates
+//@ iface ClientOps.ReadConfig(ops ClientOps, file string) (data []byte, err error)
+//@   allocates
+//@ iface ClientOps.ReadCache(ops ClientOps, file string) (data []byte, err error)
+//@   allocates
+//@ iface ClientOps.WriteConfig(ops ClientOps, file string, old []byte, new []byte) error
+//@   allocates
+//@ iface ClientOps.WriteCache(ops ClientOps, file string, data []byte)
+//@   allocates
+//@ iface ClientOps.Log(ops ClientOps, msg string)
+//@   allocates
+//@ iface ClientOps.SecurityError(ops ClientOps, msg string)
+//@   allocates
+
+//@ # a record is accepted only if its hash is the one the current (acceptable) head commits to
+//@ func (*Client).checkRecord
+//@   requires c != nil
+//@   modifies Client.latest, Client.latestMsg, ghost.LOCKSNAP, "map[tlog.Tile]bool", ghost.WRITTEN
+//@   ensures [C01] authenticated: result == nil ==> AUTHREC(id, string(data))
+//@   props C01
+
+//@ # checkTrees succeeds only if the older tree is a prefix of the newer one (its hash is the prefix hash the newer head commits to)
+//@ func (*Client).checkTrees$1
+//@   allocates
+//@   trusted "bytes.Replace for the security message; no effect on client state"
+//@   props C13 C01
+//@ func (*Client).checkTrees
+//@   requires c != nil
+//@   modifies "map[tlog.Tile]bool", ghost.WRITTEN, []tlog.Hash
+//@   ensures [C13] consistent: result == nil ==> older.N > newer.N || CONS(older, newer)
+//@   loop 0:
+//@     invariant 0 - 1 <= @idx && @idx < len(p)
+//@   props C13 C01
+
+//@ # the head is only replaced, under the lock, by a signed tree that contains the head seen under the lock
+//@ # (obligations head_invariant / head_advances of sync.Mutex.Unlock); a non-empty message that is accepted is a signed tree
+//@ func (*Client).mergeLatestMem
+//@   requires c != nil
+//@   modifies Client.latest, Client.latestMsg, ghost.LOCKSNAP, "map[tlog.Tile]bool", ghost.WRITTEN, []tlog.Hash
+//@   ensures [C13, C01] accepted_is_signed: err == nil && len(msg) != 0 ==> (exists t tlog.Tree :: SIGNEDTREE(string(msg), t))
+//@   loop 0:
+//@     invariant SIGNEDTREE(string(msg), tree) && HEAD(latest, string(latestMsg))
+//@   props C13 C01
+
+//@ # the configuration file is only ever rewritten with an acceptable head read under the lock
+//@ func (*Client).mergeLatest
+//@   requires c != nil
+//@   modifies Client.latest, Client.latestMsg, ghost.LOCKSNAP, "map[tlog.Tile]bool", ghost.WRITTEN, []tlog.Hash
+//@   call ClientOps.WriteConfig requires [C13, C01] config_is_head: HEAD(LOCKSNAP[c], string(arg_new))
+//@   loop 0:
+//@     invariant c != nil
+//@   props C13 C01
+
+//@ # the lookup cache is only written with a response whose record was authenticated against an acceptable head
+//@ func (*Client).Lookup$2
+//@   requires c != nil
+//@   modifies Client.latest, Client.latestMsg, ghost.LOCKSNAP, "map[tlog.Tile]bool", ghost.WRITTEN, []tlog.Hash
+//@   call ClientOps.WriteCache requires [C01] cache_authenticated: RECORDOK(string(arg_data))
+//@   props C01
